@@ -700,7 +700,7 @@ package dnsmsg
 //@   requires m != nil && wfRecs(m.Additionals)
 //@   modifies m.Additionals, obj(m.Additionals)
 //@   ensures wfRecs(m.Additionals)
-//@   ensures [C12:none] r == nil ==> noOPT(m.Additionals) && m.Additionals == old(m.Additionals)
+//@   ensures [C12:none] r == nil ==> noOPT(m.Additionals) && m.Additionals == old(m.Additionals) && objKept(m.Additionals)
 //@   ensures [C12:popped] r != nil ==> dynNonNil(r) && isOPT(r) && len(m.Additionals) == old(len(m.Additionals)) - 1
 //@   ensures r != nil ==> sameSlice(m.Additionals, old(m.Additionals), 0, len(m.Additionals)) && cap(m.Additionals) == old(cap(m.Additionals))
 //@   ensures [C12:popped-member] r != nil ==> exists(k, 0, old(len(m.Additionals)), r == old(m.Additionals[k]))
@@ -777,7 +777,8 @@ package dnsmsg
 //@   ensures [C09:tc] err == nil && uint16(m.OpCode) < 16 && uint16(m.RCode) < 16 ==> ((BE16(b, 2) & 0x0200) != 0) == (m.Truncated || nQ < len(m.Questions) || nAn < len(m.Answers)
 //@             || nNs < len(m.Authorities) || nAr < len(m.Additionals) - (final(edns0Opt) != nil ? 1 : 0))
 //@   ensures [C09:id] err == nil ==> BE16(b, 0) == m.ID
-//@   ensures [C09:opt-kept] err == nil && final(edns0Opt) != nil ==> len(m.Additionals) >= 1 && m.Additionals[len(m.Additionals)-1] == final(edns0Opt) && isOPT(final(edns0Opt))
+//@   ensures [C09,C12:opt-set-aside-whenever-limited] err == nil && size > 0 && old(!noOPT(m.Additionals)) ==> final(edns0Opt) != nil
+//@   ensures [C09,C12:opt-kept] err == nil && final(edns0Opt) != nil ==> len(m.Additionals) >= 1 && m.Additionals[len(m.Additionals)-1] == final(edns0Opt) && isOPT(final(edns0Opt))
 //@   ensures [C02:no-reorder] size <= 0 ==> m.Additionals == old(m.Additionals)
 //@   ensures [C02:no-reorder-elements] size <= 0 ==> forall(k, 0, len(m.Additionals), m.Additionals[k] == old(m.Additionals[k]))
 //@   ensures [C02:untouched-when-unlimited] size <= 0 ==> objKept(m.Additionals)
